@@ -106,6 +106,9 @@ type run struct {
 	Build  *kit.Obs
 	Stats  histStats
 	Script []Op
+	// Concurrent: the history contains operations that run concurrently with others (controlled
+	// schedules, concurrent Close batches, context cancellation handled by watcher goroutines)
+	Concurrent bool
 }
 
 func startRun(cfg *kit.Config, order []int) (*run, error) {
